@@ -586,7 +586,7 @@ class BaseCurve(Intface_BaseCurve):
         if oldctrlpoints is not None:
             oldctrlpoints = list(oldctrlpoints)
             for i, weight in enumerate(oldweights):
-                oldctrlpoints[i] *= weight
+                oldctrlpoints[i] = oldctrlpoints[i] * weight  # not in place
             newctrlpoints = []
             for i, line in enumerate(matrix):
                 weight = self.weights[i]
